@@ -1,24 +1,27 @@
-(* C08 -- what an empty [mism] / [viol] printed by a cases file means. *)
-From Coq Require Import List Bool Arith.
+(* C08 -- what an empty [mism] / [viol] printed by a cases file means, and what
+   the variant of the model selected by Corr/C08.v (the code as it is) guarantees. *)
+From Coq Require Import List Bool Arith ZArith.
 Import ListNotations.
 From Onet Require Import Base.Corr Net.Tls Net.TlsProofs Corr.C08.
 
 (* the property of one recorded run *)
 Definition case_property (c : case) : Prop :=
   match c with
-  | Case lv r s holds h id _ (Obs hs disp stamp crash _) =>
-      link_property lv r s holds h id hs disp stamp crash
+  | Case lv r s holds t h id _ (Obs hs disp stamp crash _ resumed) =>
+      link_property lv r s holds (effective resumed t h) id hs disp stamp crash
   end.
 
 (* the model's prediction of one recorded run *)
-Definition case_model (c : case) : outcome :=
-  match c with Case lv r s _ h id msgs _ => link code_fx lv r s h id msgs end.
+Definition case_model (c : case) : outcome * bool :=
+  match c with Case lv r s _ t h id msgs _ => link_r code_fx lv r s t h id msgs end.
 
-Definition case_observed (c : case) : outcome :=
-  match c with Case _ _ _ _ _ _ _ (Obs hs disp stamp crash _) => mkout hs disp stamp crash end.
+Definition case_observed (c : case) : outcome * bool :=
+  match c with
+  | Case _ _ _ _ _ _ _ _ (Obs hs disp stamp crash _ resumed) => (mkout hs disp stamp crash, resumed)
+  end.
 
 Definition case_honest_proof (c : case) : bool :=
-  match c with Case _ _ _ _ _ _ _ (Obs _ _ _ _ hp) => hp end.
+  match c with Case _ _ _ _ _ _ _ _ (Obs _ _ _ _ hp _) => hp end.
 
 Lemma keys_eqb_eq a b : keys_eqb a b = true <-> a = b.
 Proof.
@@ -33,7 +36,7 @@ Theorem violations_nil_iff (l : list case) :
   violations l = [] <-> forall c, In c l -> case_property c.
 Proof.
   unfold violations, viols. rewrite viol_idx_nil. split; intros H c Hc; specialize (H c Hc);
-    destruct c as [lv r s holds h id msgs [hs disp stamp crash hp]]; simpl in *.
+    destruct c as [lv r s holds t h id msgs [hs disp stamp crash hp rs]]; simpl in *.
   - now apply prop_check_sound.
   - now apply prop_check_sound.
 Qed.
@@ -44,12 +47,61 @@ Theorem mismatches_nil_iff (l : list case) :
   forall c, In c l -> case_model c = case_observed c /\ case_honest_proof c = true.
 Proof.
   unfold mismatches. rewrite mism_idx_nil. split; intros H c Hc; specialize (H c Hc);
-    destruct c as [lv r s holds h id msgs [hs disp stamp crash hp]]; simpl in *.
-  - repeat (apply andb_true_iff in H as [H ?]). split; [|assumption].
-    apply eqb_prop in H. match goal with X : Bool.eqb (out_hs _) _ = true |- _ => apply eqb_prop in X end.
+    destruct c as [lv r s holds t h id msgs [hs disp stamp crash hp rs]]; simpl in *.
+  - destruct (link_r code_fx lv r s t h id msgs) as [[a b c d] e]. simpl in *.
+    repeat (apply andb_true_iff in H as [H ?]).
+    apply eqb_prop in H.
+    repeat match goal with X : Bool.eqb _ _ = true |- _ => apply eqb_prop in X end.
     match goal with X : (_ =? _) = true |- _ => apply Nat.eqb_eq in X end.
     match goal with X : keys_eqb _ _ = true |- _ => apply keys_eqb_eq in X end.
-    destruct (link code_fx lv r s h id msgs) as [a b c d]. simpl in *. now subst.
+    subst. auto.
   - destruct H as [H ->]. rewrite H. simpl. rewrite !eqb_reflx, Nat.eqb_refl. simpl.
-    rewrite andb_true_r. now apply keys_eqb_eq.
+    rewrite !andb_true_r. now apply keys_eqb_eq.
 Qed.
+
+(* ------------------------------------------------------------------------- *)
+(* the code as it is                                                          *)
+
+(* Which variant /repo is.  This is the one statement that has to be edited (with
+   the conf text) when a flag of Corr/C08.v is flipped: F09 and F29 are repaired
+   in /repo; the relay (F28, wire format) and TLS session resumption (C08-N1,
+   proposed) are not. *)
+Example current_code_variant : code_fx = mkfixes true false true false.
+Proof. reflexivity. Qed.
+
+(* What the code's variant guarantees, for every peer bound by unforgeability,
+   every ticket stemming from an earlier accepted handshake, every chain,
+   identity message, role, suite: no crash; an accepted link names a key that
+   the peer holds -- or whose holder's proof it RELAYS --, proved freshly and
+   within validity -- unless the link is a RESUMED session --, equal to the
+   dialled key, equal to the key of every dispatched message and to the
+   declared one; nothing is dispatched on a refused link. *)
+Theorem current_code_guarantee holds own_tls htls r s t h id msgs :
+  (forall k, ~ In k holds -> own_tls (htls k) = false) ->
+  presentable code_fx holds own_tls htls h ->
+  ticket_ok holds s t ->
+  guarantee holds r s id (snd (link_r code_fx LTls r s t h id msgs))
+            (effective (snd (link_r code_fx LTls r s t h id msgs)) t h)
+            (fst (link_r code_fx LTls r s t h id msgs)).
+Proof. apply partly_repaired_guarantee; reflexivity. Qed.
+
+(* both exceptions are real for the code's variant as long as their flags are off *)
+Theorem current_code_relay_open holds own_tls htls s now n k tk :
+  fix_bind code_fx = false -> ~ In k holds -> own_tls tk = true ->
+  let c := mkcert (pub_to_cn k) [URI true true (pub_to_cn k)] (Some (SigBy k n (pub_to_cn k) None))
+                  tk SgSelf (now - 300) (now + 7200) true false in
+  presentable code_fx holds own_tls htls (Hello [RawOne c] tk) /\
+  tls_handshake code_fx s now n (Some k) (Hello [RawOne c] tk) = Accept /\
+  tls_handshake code_fx s now n None (Hello [RawOne c] tk) = Accept.
+Proof. intros Hb. now apply relay_presentable. Qed.
+
+Theorem current_code_resumption_open s c0 h id msgs :
+  fix_resume code_fx = false ->
+  link_r code_fx LTls RAccept s (Some (c0, true)) h id msgs = (accepted_conn code_fx s c0 id msgs, true).
+Proof. intros Hf. unfold link_r, resumes. rewrite Hf. reflexivity. Qed.
+
+(* and closed by their repairs, whatever the other flags *)
+Theorem current_code_resumption_closed lv r s t h id msgs :
+  fix_resume code_fx = true ->
+  link_r code_fx lv r s t h id msgs = (link code_fx lv r s h id msgs, false).
+Proof. apply no_resumption_when_repaired. Qed.
